@@ -282,6 +282,8 @@ func vpYieldLazy(label string, maxWait time.Duration) {
 	}
 }
 
+func vpYieldLazyOps(label string, maxWait time.Duration) { vpYieldLazy(label, maxWait) }
+
 // vpReleaseNext releases one goroutine parked at label; false if none is parked there.
 func vpReleaseNext(label string) bool {
 	vpR.mu.Lock()
